@@ -9,7 +9,7 @@ from fractions import Fraction
 
 from ..model import schwab as sm
 from ..probe import probe
-from ..util import rng_for, sha, fr, d as pdate
+from ..util import cap_viols, rng_for, sha, fr, d as pdate
 
 PROP = "C19"
 
@@ -204,7 +204,7 @@ def run_cases(cases):
         if not vs and len(samples) < 2 and label != "grid":
             samples.append({"deposit": rows[0]["Date"], "awards": aw,
                             "result": (o.get("ok", {}).get("cgt_content", "").split("\n")[-1] if "ok" in o else o["err"]["message"])})
-    return {"evaluations": len(cases), "nontrivial_hashes": hashes, "counters": cnt, "violations": viols[:25], "samples": samples}
+    return {"evaluations": len(cases), "nontrivial_hashes": hashes, "counters": cnt, "violations": cap_viols(viols), "samples": samples}
 
 
 def run_grid(desc):
